@@ -111,6 +111,28 @@ theorem setMax_maxSize (e : EncSig) (v : Nat) (h : v ≤ e.limit) : (e.setMax v)
   · omega
   · rfl
 
+@[simp] theorem relay_encodeFull (s : Sys) (d e : Dir) (b : Bool) : (s.encodeFull d b).relay e = s.relay e := by
+  cases b <;> cases d <;> cases e <;> rfl
+@[simp] theorem hp_encodeFull_peer (s : Sys) (d : Dir) (b : Bool) : (s.encodeFull d b).hp d.peer = s.hp d.peer := by
+  cases b <;> cases d <;> rfl
+@[simp] theorem hp_encodeFull_peer' (s : Sys) (d : Dir) (b : Bool) : (s.encodeFull d.peer b).hp d = s.hp d := by
+  cases b <;> cases d <;> rfl
+@[simp] theorem encodeFull_maxSize (s : Sys) (d : Dir) (b : Bool) :
+    ((s.encodeFull d b).hp d).enc.maxSize = (s.hp d).enc.maxSize := by
+  cases b
+  · simp [Sys.encodeFull, hp_encodeBlock_same]
+  · cases d <;> rfl
+@[simp] theorem encodeFull_limit (s : Sys) (d : Dir) (b : Bool) :
+    ((s.encodeFull d b).hp d).enc.limit = (s.hp d).enc.limit := by
+  cases b
+  · simp [Sys.encodeFull, hp_encodeBlock_same]
+  · cases d <;> rfl
+@[simp] theorem encodeFull_dec (s : Sys) (d : Dir) (b : Bool) :
+    ((s.encodeFull d b).hp d).dec = (s.hp d).dec := by
+  cases b
+  · simp [Sys.encodeFull, hp_encodeBlock_same]
+  · cases d <;> rfl
+
 /-! ### What the sender of header blocks may emit -/
 
 /-- The encoder of a relay's SOURCE endpoint as far as the relay depends on it: its dynamic table
